@@ -285,6 +285,60 @@ def run_unit(unit):
                                 else:
                                     agg.outcomes["large-agree"] += 1
         agg.sample({"family": "larger tables and vectors", "sizes": [15, 16, 17, 31, 32, 33, 63, 64, 65, 100, 129]})
+    elif what == "sort-derive-sort":
+        # sort a vector, derive a re-ordered vector from the RESULT (reverse slice, stepped slice, index list / vector, mask), sort that
+        # again with the same and with other arguments: the second sort is judged on its own input
+        from serif import Vector, Table
+        _, kind, n = unit
+        derivs = [("reversed", lambda s_: s_[::-1]), ("every-2nd-reversed", lambda s_: s_[::-2]), ("rotated-index-list", lambda s_: s_[[(i + 1) % len(s_) for i in range(len(s_))]]),
+                  ("index-vector", lambda s_: s_[Vector(list(range(len(s_) - 1, -1, -1)))]), ("copy", lambda s_: s_.copy()), ("mask-all", lambda s_: s_[[True] * len(s_)])]
+        for vals in itertools.product(ALPHA[kind], repeat=n):
+            vals = list(vals)
+            agg.states += 1; agg.nontrivial += 1
+            for rev in (False, True):
+                for na_last in (True, False):
+                    try:
+                        s1 = Vector(list(vals)).sort_by(reverse=rev, na_last=na_last)
+                    except Exception as e:
+                        agg.violation(V("vector.sort_by.history", "raises-" + type(e).__name__, {"vector": vals}))
+                        continue
+                    for dname, df in derivs:
+                        for rev2, na2 in ((rev, na_last), (not rev, na_last)):
+                            agg.evals += 1; agg.transitions += 3; agg.compared += 1
+                            case = {"vector": vals, "history": [f"sort_by(reverse={rev}, na_last={na_last})", dname, f"sort_by(reverse={rev2}, na_last={na2})"]}
+                            try:
+                                d_ = df(s1)
+                                dv = list(d_._underlying)
+                                got = list(d_.sort_by(reverse=rev2, na_last=na2)._underlying)
+                            except Exception as e:
+                                agg.violation(V("vector.sort_by.history", "raises-" + type(e).__name__, case, None, repr(e)[:80]))
+                                continue
+                            want = [dv[i] for i in spec_sort(list(range(len(dv))), [dv], [rev2], na2)]
+                            if [repr(x) for x in got] != [repr(x) for x in want]:
+                                agg.violation(V("vector.sort_by.history", "derived-vector-not-sorted-by-its-own-values", case, want, got))
+                            else:
+                                agg.outcomes["vector-agree"] += 1
+        # the same on tables: sort, re-order the result's rows, sort again
+        for keys in itertools.product(ALPHA[kind], repeat=n):
+            k0 = list(keys)
+            for rev in (False, True):
+                agg.evals += 1; agg.transitions += 3; agg.compared += 1
+                case = {"keys": k0, "history": [f"sort_by('k', reverse={rev})", "rows reversed", f"sort_by('k', reverse={rev})"]}
+                try:
+                    t = Table([Vector(list(range(n)), name="pos"), Vector(list(k0), name="k")])
+                    s1 = t.sort_by("k", reverse=rev)
+                    d_ = s1[::-1]
+                    pos_d, k_d = list(d_._underlying[0]._underlying), list(d_._underlying[1]._underlying)
+                    got = list(d_.sort_by("k", reverse=rev)._underlying[0]._underlying)
+                except Exception as e:
+                    agg.violation(V("table.sort_by.history", "raises-" + type(e).__name__, case, None, repr(e)[:80]))
+                    continue
+                want = [pos_d[i] for i in spec_sort(list(range(len(k_d))), [k_d], [rev], True)]
+                if got != want:
+                    agg.violation(V("table.sort_by.history", "derived-table-not-sorted-by-its-own-values", case, want, got))
+                else:
+                    agg.outcomes["agree"] += 1
+        agg.sample({"history": ["sort", "derive a re-ordered object from the result", "sort again"], "kind": kind, "len": n})
     elif what == "rename":
         # rename columns through live views so that a NAME moves to another column, then sort by that name
         from serif import Vector, Table
@@ -433,6 +487,7 @@ def check(ctx):
     units += [("swap", k, pol) for k in ("intc", "int", "str") for pol in ("fresh", "recycle")]
     units += [("hist", "intc", 3)]
     units += [("large",)]
+    units += [("sort-derive-sort", k, n) for k in ("int", "str") for n in (2, 3, 4)]
     agg = core.merge_all(core.pmap(run_unit, units))
     agg.notes["bound"] = f"tables rows<={N} (1 key) / <={N2} (2 keys) / <={ctx.pick(2,3)} (3 keys); vectors len<={N}"
     agg.notes["exhaustive"] = True
